@@ -105,7 +105,7 @@ fn main() {
             // ---- variant agreement (bit-exact on value, same category/time)
             rep.eval();
             let agree = |a: &Out<f32>, b: &Out<Quantity>| match (a, b) {
-                (Ok(Some(x)), Ok(Some(y))) => x.time == y.time && same(x.value, y.value.value) && y.value.unit == MILLIMETER,
+                (Ok(Some(x)), Ok(Some(y))) => x.time == y.time && same(x.value, y.value.value) && ueq(y.value.unit, MILLIMETER),
                 (Ok(None), Ok(None)) => true,
                 (Err(x), Err(y)) => x == y,
                 _ => false,
